@@ -24,6 +24,7 @@ type Opts struct {
 	Verif  string
 	Corpus string
 	Replay string
+	Search string // file of cases (cases.jsonl lines) around which to search for a failing input; oracle only
 }
 
 func ParseFlags() *Opts {
@@ -36,6 +37,7 @@ func ParseFlags() *Opts {
 	flag.StringVar(&o.Verif, "verif", "/verif", "verif dir")
 	flag.StringVar(&o.Corpus, "corpus", "", "corpus directory (run first)")
 	flag.StringVar(&o.Replay, "replay", "", "replay file: run only its case")
+	flag.StringVar(&o.Search, "search", "", "failing-input search: file with cases to vary (oracle only, no Coq cases)")
 	flag.Parse()
 	return o
 }
